@@ -24,7 +24,7 @@ def codec_stage():
 PROPS = {
     'C01': dict(
         technique='ASan+UBSan run of encode->decode on generated batches with snapshot round-trip oracle and independent wire-level frame walker',
-        level_text='Exploration: every generated batch (boundary sweeps + seeded random, all payload kinds, all encode overloads, 25 <= max <= 65559) is encoded by the real Encoder and decoded by the real Decoder under ASan/UBSan; decoded packets are compared field by field with the originals and the frames are also parsed by an independent big-endian walker so that errors cancelling between encoder and decoder stay visible. Right level: the property is a universally quantified input/output relation of pure, microsecond-fast code, so dense boundary-directed sampling with an exact oracle is what runtime monitoring can give.',
+        level_text='Exploration: every generated batch (boundary sweeps + seeded random, all payload kinds, all encode overloads, 25 <= max <= 65559) is encoded by the real Encoder and decoded by the real Decoder under ASan/UBSan; decoded packets are compared field by field with the originals and the frames are also parsed by an independent big-endian walker so that errors cancelling between encoder and decoder stay visible. Later additions: top of the legal ranges (max 65536..65559 x payload 65500..65535, big packet followed by a tiny one), frames holding 254..2049 tiny messages followed by a packet that does not fit, batches of 256..4117 packets, packets re-typed in place / edited in place through getPayload() / handed over as copies, decoders with a reassembly open on the very endpoint. Right level: the property is a universally quantified input/output relation of pure, microsecond-fast code, so dense boundary-directed sampling with an exact oracle is what runtime monitoring can give.',
         level_note='Trusted: wire model (harness/common/wire.h), snapshot of public getters, g++ sanitizers. Not covered: inputs outside the generated shapes; nothing is proved.',
         stages=[codec_stage()],
         rule=CODEC_RULE,
@@ -68,7 +68,7 @@ PROPS = {
     ),
     'C10': dict(
         technique='ASan+UBSan differential monitor: n-th encode call on a used encoder versus a fresh encoder for the same batch, after every call of generated histories',
-        level_text='Exploration: after every encode call of every generated history (mixed contexts, message types, batches ending with segmented packets, empty batches, config changes) the frames are compared with those of a fresh encoder with the same ids: same count, identical bytes outside the counter, constant counter offset; sanitizers and the signal/abort path catch crashes caused by leftover state.',
+        level_text='Exploration: after every encode call of every generated history (mixed contexts, message types, batches ending with segmented packets, empty batches, config changes) (histories also contain calls that leave encode() by an exception - a failing input iterator, an unallocatable maximum - and continuations on copies of the encoder) the frames are compared with those of a fresh encoder with the same ids: same count, identical bytes outside the counter, constant counter offset; sanitizers and the signal/abort path catch crashes caused by leftover state.',
         level_note='Trusted: the fresh encoder run is itself checked by the C07/C08 oracles in the same execution.',
         stages=[codec_stage()],
         rule=('cases = encoder histories; after EVERY encode call the frames are compared with those of a fresh encoder (same ids) for the same batch: equal '
@@ -93,7 +93,7 @@ PROPS = {
     ),
     'C05': dict(
         technique='ASan+UBSan run of multi-endpoint interleaved segment streams; per-call delivery oracle computed from the generation script (exactly-once, at the last segment, content by unique ids)',
-        level_text='Exploration: 1..4 endpoint streams of well-formed segmented (2..12 segments, sizes 0..max, unequal) and unsegmented messages with unique content are merged (all 20 merges x 36 starting-counter pairs exhaustively, bursty random merges otherwise), starting counters include 65533..65535, distinctive non-zero trailing bytes follow segments; after EVERY decode call the delivered packets must be exactly the messages that complete at that frame, with the first segment\'s header fields.',
+        level_text='Exploration: 1..4 endpoint streams of well-formed segmented (2..12 segments, sizes 0..max, unequal) and unsegmented messages with unique content are merged (all 20 merges x 36 starting-counter pairs exhaustively, bursty random merges otherwise), starting counters include 65533..65535, distinctive non-zero trailing bytes follow segments; deterministic extremes: reassembled totals 65519..65535, messages in 300 / 5000 / 65535 segments, 257 / 300 / 700 endpoints mid-message at once, 70 000 / 140 000 foreign frames between two segments, decoder continued on copies of itself; after EVERY decode call the delivered packets must be exactly the messages that complete at that frame, with the first segment\'s header fields.',
         level_note='Trusted: generation script bookkeeping; wire model. Reassembled totals > 65535 bytes are outside the domain.',
         stages=[dict(driver='drv_decode', flavour='asan')],
         rule=('cases = interleaved multi-endpoint histories; every decode call is one evaluation. A history is non-trivial iff >= 2 reassemblies were open simultaneously; '
@@ -104,7 +104,7 @@ PROPS = {
     ),
     'C06': dict(
         technique='ASan+UBSan run of faulted encoder-like streams (drop/dup/swap/corrupt-version/corrupt-type); model-free integrity oracle via unique ids in the content plus recovery oracle',
-        level_text='Fault enumeration by execution: all single faults and all ordered pairs of faults on 16 canonical streams, and seeded random 1..6-fault sequences on streams of 6..60 frames over 1..3 endpoints; every delivered packet must be byte-identical to exactly one sent message (found through the id embedded in its content) and every message whose frames arrive complete, in order and uninterrupted on its endpoint must be delivered at its last frame.',
+        level_text='Fault enumeration by execution: all single faults and all ordered pairs of faults on 16 canonical streams, seeded random 1..6-fault sequences on streams of 6..60 frames over 1..3 endpoints, and burst losses / displacements of 2..1100 frames (incl. 255/256/257, 511/512/513, 768, 1024) on streams of 300..1400 frames; every delivered packet must be byte-identical to exactly one sent message (found through the id embedded in its content) and every message whose frames arrive complete, in order and uninterrupted on its endpoint must be delivered at its last frame.',
         level_note='Trusted: the fault applicator and the bookkeeping of which sent message each frame carries. Duplicate delivery of duplicated frames is not forbidden by the statement and not flagged.',
         stages=[dict(driver='drv_decode', flavour='asan')],
         rule=('cases = (stream, fault sequence); non-trivial iff at least one fault hit a frame of a segmented message; distinct = distinct hash of the sequence of (fault kind, role of the hit frame in its message: unsegmented/first/middle/last) x stream id.'),
@@ -138,7 +138,7 @@ PROPS = {
 
     'C02': dict(
         technique='ASan (vector annotations) + UBSan + LeakSanitizer on Decoder::decode over mutated frame histories, inputs in read-only guard-paged mappings, ownership snapshots re-read after input and decoder are released; libFuzzer in the thorough tier',
-        level_text='Exploration: histories of hostile byte strings (every truncation of ~55 canonical CMP/TECMP frames, every byte / 16-bit field of their first 96 bytes set to 17 hostile values, all 256 TECMP message types x 11 data types x sizes 28..52, structurally mutated generated frames, random bytes up to 64 KiB) are decoded on one decoder per history; inputs end at a PROT_NONE page and are read-only (an over-read or any write faults), every 4th input sits in an exact-size heap block (red zones); each returned packet is checked (non-null, payload object, <= 1 per 12 bytes), fully read, and re-read after the input is unmapped, more frames decoded and the decoder destroyed.',
+        level_text='Exploration: histories of hostile byte strings (every truncation of ~55 canonical CMP/TECMP frames, every byte / 16-bit field of their first 96 bytes set to 17 hostile values, all 256 TECMP message types x 11 data types x sizes 28..52, structurally mutated generated frames, random bytes up to 64 KiB) are decoded on one decoder per history; inputs end at a PROT_NONE page and are read-only (an over-read or any write faults), every 4th input sits in an exact-size heap block (red zones); further families: reassemblies whose segment totals cross 65535, typed payloads at their structural boundaries as the last message of a frame that ends exactly with the payload, the product version x message type x counter x payload length x segment kind on decoders with and without state, frames longer than 64 KiB, null / empty inputs; each returned packet is checked (non-null, payload object, <= 1 per 12 bytes), fully read, and re-read after the input is unmapped, more frames decoded and the decoder destroyed.',
         level_note='Trusted: ASan/UBSan/LSan and the MMU. Red zones miss far overflows inside other live blocks; guard pages cover the input side exactly. Termination is observed (watchdog), not proved.',
         stages=[dict(driver='drv_memsafe', flavour='asan'),
                 dict(driver='fuzz_decode', flavour='fuzz', runner='fuzz', tiers=('thorough',), runs=dict(thorough=8000000), max_len=4096)],
@@ -221,7 +221,7 @@ PROPS = {
 
     'C19': dict(
         technique='ThreadSanitizer (happens-before race detection) on T threads each driving its own Encoder/Decoder/Status and the static TECMP decoder on independent seeded workloads; per-thread digests compared with single-threaded runs; helgrind as second detector in thorough',
-        level_text='Exploration of schedules: 8 (quick) / 16 (thorough) threads start on a barrier and run mixed workloads (encode+decode, reassembly, payload builders, TECMP conversion, status tracker) with sched_yield jitter between library calls; every output is folded into a digest that must equal the digest of the same workload run alone beforehand; the ThreadSanitizer log must contain no report block with a library frame (blocks de-duplicated by kind and library functions). An atomic counter records how many threads were inside library code simultaneously.',
+        level_text='Exploration of schedules: 8 (quick) / 16 (thorough) threads start on a barrier and run mixed workloads (encode+decode, reassembly, payload builders, TECMP conversion, status tracker) with sched_yield jitter between library calls; every other round is focused (all threads on one code path: encode+decode, decode, builders, TECMP, status, reassembly of 16..60 KiB messages); every output is folded into a digest that must equal the digest of the same workload run alone beforehand; the ThreadSanitizer log must contain no report block with a library frame (blocks de-duplicated by kind and library functions). An atomic counter records how many threads were inside library code simultaneously.',
         level_note='Trusted: ThreadSanitizer (reports unordered conflicting accesses even if they did not collide in time, which is what "no unsynchronised shared state" needs), valgrind helgrind. Sampled schedules, not all schedules.',
         stages=[dict(driver='drv_threads', flavour='tsan', runner='tsan', shards=dict(quick=4, thorough=4)),
                 dict(driver='drv_threads', flavour='plain0', runner='helgrind', tiers=('thorough',), env=dict(VF_THREADS='4', VF_STEPS='60', VF_ROUNDS='3'))],
